@@ -581,6 +581,11 @@ func runCluster(o *lib.Out, cl *cluster, g GCluster, views []string) {
 	for _, n := range g.Nsqds {
 		cfg.Nsqds = append(cfg.Nsqds, cl.addr(n))
 	}
+	mk := g
+	if len(views) == 1 {
+		mk.Name = g.Name + "/" + views[0]
+	}
+	markCurrent(mk)
 	e := &viewEnv{cl: cl, g: g, admin: getAdmin(cfg)}
 	e.install()
 	want := func(v string) bool { return len(views) == 0 || contains(views, v) }
@@ -773,7 +778,7 @@ func genChan(r *lib.Rand, name string) GChan {
 	}
 	nc := r.Intn(4)
 	for i := 0; i < nc; i++ {
-		if r.Chance(12) {
+		if r.Chance(7) {
 			c.Clients = append(c.Clients, GClient{Null: true})
 		} else {
 			c.Clients = append(c.Clients, GClient{ID: fmt.Sprintf("cl%d", r.Intn(50)), Host: hostPool[r.Intn(len(hostPool))]})
@@ -798,7 +803,7 @@ func genTopic(r *lib.Rand, name string) GTopic {
 		nch = 2 + r.Intn(2)
 	}
 	for i := 0; i < nch; i++ {
-		if r.Chance(4) {
+		if r.Chance(3) {
 			t.Channels = append(t.Channels, GChan{Null: true})
 		} else {
 			t.Channels = append(t.Channels, genChan(r, chanPool[r.Intn(len(chanPool))]))
@@ -822,7 +827,7 @@ func genCluster(r *lib.Rand, k int) GCluster {
 		nt := 1 + r.Intn(3)
 		used := map[string]bool{}
 		for j := 0; j < nt; j++ {
-			if r.Chance(5) {
+			if r.Chance(3) {
 				n.Topics = append(n.Topics, GTopic{Null: true})
 				continue
 			}
@@ -870,7 +875,7 @@ func genCluster(r *lib.Rand, k int) GCluster {
 				}
 				l.Producers = append(l.Producers, p)
 			}
-			if r.Chance(10) {
+			if r.Chance(6) {
 				l.Producers = append(l.Producers, GProducer{Null: true})
 			}
 			if r.Chance(10) {
@@ -963,8 +968,104 @@ func runView(o *lib.Out, r *lib.Rand, n int, replay string) {
 		}
 		return
 	}
+	// every subset of failing upstreams, on one generated cluster in each mode
+	runSweep(o, cl, r)
 	for k := 0; k < n; k++ {
 		runCluster(o, cl, genCluster(r, k), nil)
 	}
 	o.Stat("view_nsqadmin_instances", len(admins))
+}
+
+// runSweep: a cluster in which every nsqd has the topic and the channel asked for; every
+// subset of the 4 nsqds failing (lookupd mode: against no / one / every nsqlookupd failing;
+// direct mode: the failing ones fail at the producer stage) for the counter and topic views,
+// and every subset of the 3 nsqlookupds failing for the list views.
+func runSweep(o *lib.Out, cl *cluster, r *lib.Rand) {
+	base := GCluster{Topic: "orders", Channel: "ch", Node: "N0"}
+	for i := range base.N {
+		n := GNsqd{Hostname: fmt.Sprintf("host%d", i)}
+		t := genTopic(r, "orders")
+		t.Channels = []GChan{genChan(r, "ch")}
+		for j := range t.Channels[0].Clients {
+			t.Channels[0].Clients[j].Null = false
+			if t.Channels[0].Clients[j].ID == "" {
+				t.Channels[0].Clients[j].ID = fmt.Sprintf("sw%d", j)
+			}
+		}
+		if r.Chance(50) {
+			t.Channels = append(t.Channels, genChan(r, "archive"))
+		}
+		n.Topics = []GTopic{t}
+		if i%2 == 1 {
+			n.Topics = append(n.Topics, genTopic(r, "events"))
+		}
+		base.N[i] = n
+	}
+	for i := range base.L {
+		l := GLookupd{}
+		for j := range base.N {
+			if (i+j)%3 == 2 { // not every nsqlookupd knows every node
+				continue
+			}
+			p := GProducer{Node: fmt.Sprintf("N%d", j), Hostname: base.N[j].Hostname, Remote: fmt.Sprintf("10.1.%d.%d:4150", i, j)}
+			for _, t := range base.N[j].Topics {
+				p.Topics = append(p.Topics, t.Name)
+				p.Tombs = append(p.Tombs, false)
+			}
+			l.Producers = append(l.Producers, p)
+		}
+		base.L[i] = l
+	}
+	failKinds := []string{"500", "garbage", "wrongtype", "bignum"}
+	k := 0
+	for _, mode := range []string{"lookupd", "direct"} {
+		for mask := 0; mask < 16; mask++ {
+			lsets := []int{0}
+			if mode == "lookupd" {
+				lsets = []int{0, 1 << uint(mask%3), 7}
+			}
+			for _, lmask := range lsets {
+				g := base
+				g.Name = fmt.Sprintf("sweep-%s-n%02d-l%d", mode, mask, lmask)
+				if mode == "lookupd" {
+					g.Lookupds = []string{"L0", "L1", "L2"}
+				} else {
+					g.Nsqds = []string{"N0", "N1", "N2", "N3"}
+				}
+				for i := range g.N {
+					if mask&(1<<uint(i)) != 0 {
+						g.N[i].Fail = failKinds[(k+i)%len(failKinds)]
+						if (k+i)%5 == 4 {
+							g.N[i].Fail, g.N[i].StatsFail = "", true
+						}
+					}
+				}
+				for i := range g.L {
+					if lmask&(1<<uint(i)) != 0 {
+						g.L[i].Fail = []string{"500", "garbage", "wrongtype"}[(k+i)%3]
+					}
+				}
+				views := []string{"counter", "topic"}
+				if lmask == 7 || mask == 15 {
+					views = []string{"counter"}
+				}
+				if k%4 == 0 {
+					views = append(views, "channel")
+				}
+				runCluster(o, cl, g, views)
+				k++
+			}
+		}
+	}
+	for lmask := 0; lmask < 8; lmask++ {
+		g := base
+		g.Name = fmt.Sprintf("sweep-lists-l%d", lmask)
+		g.Lookupds = []string{"L0", "L1", "L2"}
+		for i := range g.L {
+			if lmask&(1<<uint(i)) != 0 {
+				g.L[i].Fail = []string{"500", "garbage", "wrongtype"}[(lmask+i)%3]
+			}
+		}
+		runCluster(o, cl, g, []string{"topics", "nodes"})
+	}
 }
